@@ -67,8 +67,11 @@ FILENAMES = [None, b'./build.ninja']
 
 class Run:
     def __init__(self, I, tree, groups, g1s=('plain', 'default-t1', 'pool2', 'helper'), g2s=('same', 'renamed', 'default', 'pooled', 'grown'),
-                 real_read=False):
+                 real_read=False, layouts=('direct',)):
         self.real_read = real_read      # True: load::read is the real loader over manifest TEXT (only file reading is modelled)
+        # 'direct': build.ninja holds the statements; 'inc': build.ninja is a fixed `include all.ninja` and the generator
+        # rewrites all.ninja (real_read only)
+        self.layouts = list(layouts)
         self.L = Layout(tree.path)
         self.groups = set(groups)
         self.g1s, self.g2s = list(g1s), list(g2s)
@@ -103,7 +106,26 @@ class Run:
             return len(H.worlds) - 1
 
         def stepname(gi, b):
-            return H.worlds[gi][1]['steps'][b][0]
+            nm = H.names.get((gi, b))
+            return nm if nm is not None else H.worlds[gi][1]['steps'][b][0]
+
+        def name_from_graph(I, work, gi, b):
+            """family (b): the step is identified by what the LOADED graph says it produces, not by its position, so
+            that a graph that is not the one the text in force declares is noticed"""
+            g = L.get(work, 'graph')
+            bd = dm_items(L.get(g, 'builds'))[b]
+            files = dm_items(L.get(L.get(g, 'files'), 'by_id'))
+            outs = [bytes(x.v for x in L.get(files[o.fields[0].v], 'name').fields[0].fields).decode('latin1')
+                    for o in L.get(L.get(bd, 'outs'), 'ids').fields]
+            ins = [bytes(x.v for x in L.get(files[o.fields[0].v], 'name').fields[0].fields).decode('latin1')
+                   for o in L.get(L.get(bd, 'ins'), 'ids').fields]
+            for st in H.worlds[gi][1]['steps']:
+                if list(st[1]) == outs and list(st[2]) + (list(st[4]) if len(st) > 4 else []) == ins:
+                    return st[0]
+            if 'C17' in H.groups:
+                I.fail('C17:graph-not-from-text-in-force', 'a step producing %r from %r is examined under generation %d, whose text declares no such step' % (
+                    outs, ins, gi + 1), extra=H.extra())
+            return '?%s' % ','.join(outs)
 
         def m_parse_args(I, args, callee):
             opts = L.mk('Options', failures_left=none(), parallelism=H.par, explain=BoolV(False), adopt=BoolV(False))
@@ -125,9 +147,16 @@ class Run:
 
         def m_read_manifest(I, args, callee):
             name = conc_bytes(I, as_slice(I, args[0]))
+            H.file_reads.append((len(H.worlds), name))
+            gen = H.worlds[-1][1]
+            if H.layout == 'inc':
+                if name == b'build.ninja':
+                    return ok(Agg('Vec', [IntV(8, c) for c in b'include all.ninja\n'] + [IntV(8, 0)]))
+                if name == b'all.ninja':
+                    return ok(Agg('Vec', [IntV(8, c) for c in manifest_text(gen).encode()] + [IntV(8, 0)]))
+                return err(Opaque('io::Error', ('NotFound',)))
             if name != b'build.ninja':
                 return err(Opaque('io::Error', ('NotFound',)))
-            gen = H.worlds[-1][1]
             return ok(Agg('Vec', [IntV(8, c) for c in manifest_text(gen).encode()] + [IntV(8, 0)]))
 
         def m_load_read(I, args, callee):
@@ -176,6 +205,8 @@ class Run:
         def m_check_dirty(I, args, callee):
             b = bidx(args[1])
             gi = cur()
+            if H.real_read and (gi, b) not in H.names:
+                H.names[(gi, b)] = name_from_graph(I, I.deref(args[0]), gi, b)
             nm = stepname(gi, b)
             key = (gi, b)
             H.judged[key] = H.judged.get(key, 0) + 1
@@ -255,7 +286,7 @@ class Run:
 
     def extra(self):
         return {'g1': self.g1name, 'g2': self.g2name, 'targets': list(self.targets), 'filename': self.filename,
-                'events': list(self.events), 'untouched': bool(self.untouched)}
+                'events': list(self.events), 'untouched': bool(self.untouched), 'layout': self.layout}
 
     def run_path(self, I):
         self.worlds = []
@@ -266,6 +297,9 @@ class Run:
         self.stdout = []
         self.nsucc = self.nfail = 0
         self.untouched = None
+        self.file_reads = []
+        self.names = {}
+        self.layout = self.layouts[I.choose('layout', len(self.layouts))] if len(self.layouts) > 1 else self.layouts[0]
         from checks import dblib
         self.disk = dblib.Disk()
         self.g1name = self.g1s[I.choose('g1', len(self.g1s))]
@@ -383,14 +417,14 @@ class Run:
                     fail('C19', 'summary', '%d commands completed, summary line %r' % (self.nsucc, line))
 
 
-def run_run(ctx, out, pid, groups, g1s=None, g2s=None, budget=None, report=None, real_read=False):
+def run_run(ctx, out, pid, groups, g1s=None, g2s=None, budget=None, report=None, real_read=False, layouts=('direct',)):
     from lib.driver import Violation
     from lib.mcheck import finish_exploration, load_interp, merge_cov
     I = load_interp(ctx)
     H = Run(I, ctx.tree, groups, g1s or ('plain', 'default-t1', 'pool2', 'helper'), g2s or ('same', 'renamed', 'default', 'pooled', 'grown'),
-            real_read=real_read)
+            real_read=real_read, layouts=layouts)
     ex = M.explore(I, H, jobs=ctx.jobs, time_budget=budget or (1500 if ctx.quick() else 4 * 3600), keep_summaries=6)
-    name = ('run_impl with the REAL load::read over manifest text' if real_read else 'run_impl') + ' over two manifest generations (%s -> %s), targets %r, -f %r' % ('/'.join(H.g1s), '/'.join(H.g2s), TARGETS, FILENAMES)
+    name = ('run_impl with the REAL load::read over manifest text' + ('' if list(layouts) == ['direct'] else ' (layouts %s)' % '/'.join(layouts)) if real_read else 'run_impl') + ' over two manifest generations (%s -> %s), targets %r, -f %r' % ('/'.join(H.g1s), '/'.join(H.g2s), TARGETS, FILENAMES)
     merge_cov(out.coverage, name, ex)
     finish_exploration(out, ex, name)
     for key, lst in ex.failures.items():
@@ -449,8 +483,9 @@ def native_run(tree, extra, model):
         g2 = GEN2[extra['g2']]()
         # layout: the generator rewrites build.ninja itself, or (extra['untouched']) build.ninja is a fixed
         # `include all.ninja` and the generator rewrites all.ninja only
-        target = 'all.ninja' if extra.get('untouched') else 'build.ninja'
-        if extra.get('untouched'):
+        inc = bool(extra.get('untouched')) or extra.get('layout') == 'inc'
+        target = 'all.ninja' if inc else 'build.ninja'
+        if inc:
             open(os.path.join(d, 'build.ninja'), 'w').write('include all.ninja\n')
         open(os.path.join(d, target), 'w').write(manifest_text(g1))
         open(os.path.join(d, 'next.ninja'), 'w').write(manifest_text(g2))
